@@ -46,6 +46,12 @@ def gen_sequence(rng, chained):
         elif k < 80:    # gaps and the past
             r = rng.choice([head + 2, head + 3, max(0, head - 1), max(0, head - 2), 0, head + 50])
             seq.append(f"put {r} {sig_of(rng, r, rng.chance(1, 2))} {sigs.get(r - 1, '-') if r > 0 else '-'}")
+        elif k < 84:
+            n = rng.range(2, 12)
+            seq.append(f"race {n} {rng.range(2, 6)}")
+            for i in range(n):
+                head += 1
+                sigs[head] = f"{(head * 7) % 256:02x}{head % 256:02x}5a"
         elif k < 88:
             seq.append("restart")
         elif k < 94:
@@ -74,6 +80,11 @@ def oracle_seq(seq, outs, window=None):
         f = op.split()
         if out.startswith("err:") or out.startswith("panic"):
             return f"{op}: unexpected outcome {out}"
+        if f[0] == "race":
+            # concurrent writers: every beacon appended exactly once, nobody failed
+            oks = out.split()[1].split("=")[1].split(",")
+            if out.split()[2] != "bad=0" or any(o != "1" for o in oks):
+                return f"{op}: concurrent writers produced {out} (each round must be appended exactly once)"
         if f[0] == "scan":
             cur = parse_scan(out)
             rounds = [c[0] for c in cur]
